@@ -60,7 +60,15 @@ def template_obligations(rep, prop="C12"):
                                 unit=f"{rel}: iteration over the set .{src.attr}", where=f"{rel}:{node.lineno}",
                                 backend="syntactic (jinja AST)",
                                 formula=f"the set-typed .{src.attr} is sorted before its order can reach the output")
-                if {"sort", "dictsort"} & set(filters) or order_free:
+                chain_root = node.iter if isinstance(node, nodes.For) else node
+                if src.attr == "values" and "sort" in filters and not order_free and not _case_sensitive_sort(chain_root):
+                    # the elements are document text (enum values): two of them may differ only in case
+                    ob.status = REFUTED
+                    ob.detail = (f"filters {filters}: jinja's sort ignores case and is stable, values that differ only in case stay in "
+                                 f"set (hash) order; sort(case_sensitive=true) is needed somewhere in the chain")
+                    ob.witness = {"kind": "call", "qualname": "pyvc.boundedchecks:hashseed_violation", "args": [], "kwargs": {},
+                                  "violates": "result is not None"}
+                elif {"sort", "dictsort"} & set(filters) or order_free:
                     ob.status, ob.detail = PROVED, f"filters: {filters}"
                 else:
                     ob.status, ob.detail = REFUTED, f"iterated in set order (filters: {filters or 'none'})"
@@ -68,6 +76,20 @@ def template_obligations(rep, prop="C12"):
                                   "violates": "result is not None"}
                 out.append(rep.add(ob))
     return out
+
+
+def _case_sensitive_sort(node):
+    """does the filter chain contain sort(case_sensitive=true)?  (jinja's sort ignores case by default and is stable: elements
+    that differ only in case keep their input order -- for a set: the hash order)"""
+    while isinstance(node, nodes.Filter):
+        if node.name == "sort":
+            for kw in node.kwargs:
+                if kw.key == "case_sensitive" and isinstance(kw.value, nodes.Const) and kw.value.value is True:
+                    return True
+            if node.args and isinstance(node.args[-1], nodes.Const) and node.args[-1].value is True and len(node.args) >= 2:
+                return True
+        node = node.node
+    return False
 
 
 def _chain(node):
@@ -142,8 +164,27 @@ def python_obligations(rep, prop="C12"):
                                         where=f"{rel}:{n.lineno}", backend="syntactic (python AST)",
                                         formula="a set-typed value is sorted before its order can reach a string / list",
                                         status=PROVED, detail=f"`{ast.unparse(n)[:90]}`")
+                        key = next((k.value for k in n.keywords if k.arg == "key"), None)
+                        if key is not None and not _injective_key(key):
+                            # sorted() is stable: elements with equal keys keep their INPUT order, which for a set is the hash
+                            # order; a key that maps different elements to one value (str.lower, len, ...) lets that order through
+                            ob.status = REFUTED
+                            ob.detail = (f"`{ast.unparse(n)[:90]}` sorts a set by a key that can tie for different elements: tied "
+                                         f"elements stay in set-iteration (hash) order")
                         out.append(rep.add(ob))
     return out
+
+
+def _injective_key(key):
+    """a sort key that cannot tie for different elements: a lambda whose result is (or ends a tuple with) its own parameter"""
+    if isinstance(key, ast.Lambda) and len(key.args.args) == 1:
+        p = key.args.args[0].arg
+        body = key.body
+        if isinstance(body, ast.Name) and body.id == p:
+            return True
+        if isinstance(body, ast.Tuple) and body.elts and isinstance(body.elts[-1], ast.Name) and body.elts[-1].id == p:
+            return True
+    return False
 
 
 def _is_set_expr(e, setnames, setattrs):
@@ -173,7 +214,7 @@ def _guarded_singleton(fn, popcall):
     return False
 
 
-def determinism_document():
+def determinism_document(literal=False):
     """a document rich in the places where a set could leak its iteration order into generated text: unions of several
     const / enum / model members, models importing many siblings, operations with several response types"""
     s = {"type": "string"}
@@ -184,6 +225,11 @@ def determinism_document():
         "C": {"type": "object", "properties": {"z": {"type": "boolean"}}},
         "Color": {"type": "string", "enum": ["red", "green", "blue"]},
         "Level": {"type": "integer", "enum": [1, 2, 3]},
+        # values / class names that differ only in case: a case-insensitive stable sort leaves them in input (hash) order
+        # (class-based enums reject such values -- duplicate member names -- so they are only there for the literal style)
+        "Mode": {"type": "string", "enum": ["on", "ON", "off", "Off", "auto"] if literal else ["on", "off", "auto"]},
+        "IPhone": {"type": "object", "properties": {"m": {"type": "string", "enum": ["x", "X", "y"] if literal else ["x", "y"]}}},
+        "Iphone": {"type": "object", "properties": {"n": {"type": "integer"}}},
         "SortRequest": {"type": "object", "properties": {
             "two": {"oneOf": consts[:2]}, "six": {"oneOf": consts}, "mixed": {"anyOf": [{"type": "integer"}] + consts[:3]},
             "models": {"oneOf": [{"$ref": f"#/components/schemas/{n}"} for n in "ABC"]},
@@ -191,7 +237,9 @@ def determinism_document():
             "many": {"type": "array", "items": {"oneOf": [{"$ref": f"#/components/schemas/{n}"} for n in "CBA"] + [{"type": "string", "format": "date"}]}},
             "when": {"type": "string", "format": "date-time"}, "id": {"type": "string", "format": "uuid"}}},
     }
-    ok = {"200": {"description": "", "content": {"application/json": {"schema": {"$ref": "#/components/schemas/A"}}}},
+    ok = {"203": {"description": "", "content": {"application/json": {"schema": {"$ref": "#/components/schemas/IPhone"}}}},
+          "206": {"description": "", "content": {"application/json": {"schema": {"$ref": "#/components/schemas/Iphone"}}}},
+          "200": {"description": "", "content": {"application/json": {"schema": {"$ref": "#/components/schemas/A"}}}},
           "201": {"description": "", "content": {"application/json": {"schema": {"$ref": "#/components/schemas/B"}}}},
           "202": {"description": "", "content": {"application/json": {"schema": {"$ref": "#/components/schemas/C"}}}},
           "400": {"description": "", "content": {"text/plain": {"schema": s}}}}
